@@ -227,7 +227,9 @@ func init() {
 			for j, b := range c13Ops {
 				a, b := a, b
 				name := fmt.Sprintf("c13/%s/%d-%d", mode, i, j)
-				RegisterScenario(&Scenario{Name: name, Run: func(p []int, m []vsched.ChoicePoint) explore.Outcome { return c13Run(p, mode, []string{a}, []string{b}) },
+				RegisterScenario(&Scenario{Name: name, Run: func(p []int, m []vsched.ChoicePoint) explore.Outcome {
+					return c13Run(p, mode, []string{a}, []string{b})
+				},
 					Doc: fmt.Sprintf("%s: admin client issues %s || guest client issues %s", mode, a, b)})
 			}
 		}
